@@ -110,8 +110,9 @@ def fasta_derived(buf, k0, r1, r2, r3, w, crlf, final_nl):
     idx, asm = index_fasta_file(FF(), buf)
     text = fmt_agp(asm)
     ok = agp_valid(text, asm.scaffolds)
+    true_len = {"r1": len(seq), "r2": len(b"ACnnGT"[: 2 * wv])}      # residues actually in the file
     for sc in asm.scaffolds:
-        ok = AND(ok, sc.length == idx[sc.name].length)
+        ok = AND(ok, sc.length == idx[sc.name].length, sc.length == true_len[sc.name])
     return FIN(ok)
 '''
 
